@@ -3,18 +3,21 @@
 // datagram faults, and writes `case => observed` lines for the Lean oracle (model + spec).
 //
 // case     : mode=full|resume suite=gcm|cbc|egcm|ecbc auth=0|1 init=<ms> max=<ms> tie=c|s faults=<f>,<f>..|-
-//              f = <c|s><index of the datagram in that direction>:<drop|dup|swap>
-// observed : c=<ok|err|hang> s=<ok|err|hang> ct=<ms|-> st=<ms|-> cto=<n> sto=<n> cs=<n> ss=<n>
-//            echo=<c got s's data 0|1><s got c's data 0|1> agree=<1|0|-> resumed=<1|0|-> early=<0|1>
-//            hits=<c|s>.<kind>@<label>,..|- detail=<..>
 //
-//   ct/st   virtual time at which Handshake() returned nil
-//   cto/sto read deadlines that expired on that side during the whole run
-//   cs/ss   datagrams handed to the network by that side (handshake + application)
-//   agree   both completed and report the same ConnectionState parameters and work key
-//   early   an end holds decrypted application data although its handshake did not complete
-//   hits    the faults that were really applied, with what the datagram was (vnet.go labelOf)
-//   detail  error classes (not constrained by the property; echoed by the oracle)
+//	f = <c|s><index of the datagram in that direction>:<drop|dup|swap>
+//
+// observed : c=<ok|err|hang> s=<ok|err|hang> ct=<ms|-> st=<ms|-> cto=<n> sto=<n> cs=<n> ss=<n>
+//
+//	         echo=<c got s's data 0|1><s got c's data 0|1> agree=<1|0|-> resumed=<1|0|-> early=<0|1>
+//	         hits=<c|s>.<kind>@<label>,..|- detail=<..>
+//
+//	ct/st   virtual time at which Handshake() returned nil
+//	cto/sto read deadlines that expired on that side during the whole run
+//	cs/ss   datagrams handed to the network by that side (handshake + application)
+//	agree   both completed and report the same ConnectionState parameters and work key
+//	early   an end holds decrypted application data although its handshake did not complete
+//	hits    the faults that were really applied, with what the datagram was (vnet.go labelOf)
+//	detail  error classes (not constrained by the property; echoed by the oracle)
 package main
 
 import (
@@ -109,16 +112,16 @@ type endResult struct {
 }
 
 type outcome struct {
-	c, s    endResult
-	why     string
-	cto     int
-	sto     int
-	cs, ss  int
-	agree   string
-	trace   []string
-	hits    []string
-	cstate  dtlcp.ConnectionState
-	sstate  dtlcp.ConnectionState
+	c, s   endResult
+	why    string
+	cto    int
+	sto    int
+	cs, ss int
+	agree  string
+	trace  []string
+	hits   []string
+	cstate dtlcp.ConnectionState
+	sstate dtlcp.ConnectionState
 }
 
 // one handshake (+ application exchange) on a fresh simulator
@@ -342,6 +345,19 @@ func generate(o hx.Opts) []string {
 			for _, f := range singleFaults(mode, 0) {
 				add(descOf(mode, "gcm", false, tm[0], tm[1], 0, []fault{f}))
 			}
+		}
+	}
+	// back-off family: the same flight lost again and again (the retransmitted CCS+Finished of the
+	// client is c4, c5, ...; the server's flight 4 after a lost hello is retransmitted on its own timer)
+	for _, tm := range [][2]int{{1000, 1000}, {1000, 2000}, {1000, 4000}} {
+		for _, tie := range []int{0, 1} {
+			add(descOf("full", "gcm", false, tm[0], tm[1], tie, []fault{{0, 3, fDrop}, {0, 4, fDrop}}))
+			add(descOf("full", "gcm", false, tm[0], tm[1], tie, []fault{{0, 3, fDrop}, {0, 4, fDrop}, {0, 5, fDrop}}))
+			add(descOf("full", "gcm", false, tm[0], tm[1], tie, []fault{{0, 3, fDrop}, {0, 4, fDrop}, {0, 5, fDrop}, {0, 6, fDrop}}))
+			add(descOf("full", "gcm", false, tm[0], tm[1], tie, []fault{{0, 2, fDup}, {0, 3, fDrop}, {0, 4, fDrop}}))
+			add(descOf("full", "gcm", false, tm[0], tm[1], tie, []fault{{0, 1, fDrop}, {0, 2, fDrop}}))
+			add(descOf("full", "gcm", false, tm[0], tm[1], tie, []fault{{1, 0, fDrop}, {1, 1, fDrop}, {1, 2, fDrop}}))
+			add(descOf("resume", "gcm", false, tm[0], tm[1], tie, []fault{{0, 0, fDrop}, {0, 1, fDrop}, {0, 2, fDrop}}))
 		}
 	}
 	// every pattern of 2 faults
